@@ -13,7 +13,7 @@ from .rs import LexError
 from . import unit as U
 
 VERIF = U.VERIF
-BUILD = os.path.join(VERIF, "build")
+BUILD = os.environ.get("VX_BUILD") or os.path.join(VERIF, "build")
 EVID = os.path.join(VERIF, "evidence")
 REPLAYS = os.path.join(VERIF, "replays")
 REGISTRY = os.path.join(VERIF, "registry.json")
